@@ -873,6 +873,13 @@ func modelCfg(rt *rapid.T) idl.Cfg {
 	// base services in the same Go package (two files, one namespace) and in packages named after the file
 	c.SharedNS = rapid.IntRange(0, 3).Draw(rt, "sharedns") == 0
 	c.NoNamespace = true
+	if vt.Known("C05", "enum-via-typedef-far") {
+		// the front end binds such a default to nothing (C05's listed finding): thriftgo rejects the program
+		c.EnumViaTypedefFar = false
+		vt.Excluded("C05-enum-via-typedef-far")
+	}
+	// `void f(1: i32 a = 5)`: every argument is always passed, so the values must still arrive unchanged
+	c.ArgDefaults = rapid.IntRange(0, 3).Draw(rt, "argdefaults") == 0
 	return c
 }
 
